@@ -176,7 +176,7 @@ def effective_kinds(config, model):
         if not any(stage == "test" for stage, _ in model.raised):
             out.append(("test", pg.UXSUCCESS))
             out.sort(key=lambda sk: 0 if sk[0] in ("setUp", "setUp.pre") else 1 if sk[0] == "test" else 2)
-    if config.force_failure or ("test" in ran and config.expect_mismatch):
+    if config.force_failure or ("test" in ran and config.expect_mismatch is True) or ("c:1" in ran and config.expect_mismatch == "cleanup"):
         # the forced failure is raised after everything else (also when setUp did not return
         # normally: a failed expectation must not be lost because setUp went on to skip)
         out.append(("forced", pg.FAIL))
